@@ -148,6 +148,14 @@ Proof.
 Qed.
 Print Assumptions C14_vol_adm_needed.
 
+(* The memo key is a VALUE: operations that only edit flows, T, P or the phase (in place, through a linked stream or
+   a phase view, by mixing into a single- or multi-phase receiver, by H / S assignment) leave every key and every memo
+   exactly as they were -- a later edit of the flows can never edit a stored key. *)
+Theorem C14_state_only_ops_keep_keys_and_memos : forall calc1 calcx sk cv w o,
+  state_only o = true -> w_cs (fst (step calc1 calcx sk cv w o)) = w_cs w.
+Proof. exact state_only_keeps_cache. Qed.
+Print Assumptions C14_state_only_ops_keep_keys_and_memos.
+
 (* Source BEFORE the repair: the statement still holds for every history that creates no proxy ... *)
 Theorem C14_read_fresh_without_proxy : forall calc1 calcx cv,
   calc1_respects calc1 -> calcx_respects calcx ->
@@ -248,3 +256,17 @@ Proof.
   split; [vm_compute; reflexivity|]. split; [vm_compute; reflexivity|].
   split; [eexists; vm_compute; reflexivity|]. split; vm_compute; reflexivity.
 Qed.
+
+(* non-vacuity of C14_vol_fresh through mix_from into a multi-phase receiver whose phases are expanded in place: the
+   MultiStream (g, l) has read vol (its _data_cache is filled), a solid inlet arrives, and the history is in the domain;
+   the receiver then has three phases and a volumetric flow for the solid *)
+Definition mixm_ops : list op :=
+  [ONew [[1; 2; 0]; [0; 1; 4]] [0%nat; 1%nat] 300 101325 O; ONew [[0; 0; 2]] [2%nat] 320 65536 O;
+   ONew [[1; 0; 0]] [1%nat] 300 101325 O; ORVol O; OMix O [1%nat; 2%nat] false 0].
+Example C14_vol_mix_hypotheses :
+  run_adm stub_calc1 stub_calcx true stub_cvol w0 mixm_ops = true /\
+  let w' := run_world stub_calc1 stub_calcx true stub_cvol w0 mixm_ops in
+  ps_phases (pstate_of (w_st w') O) = [0%nat; 1%nat; 2%nat] /\
+  ps_rows (pstate_of (w_st w') O) = [[0; 0; 0]; [1 + 0; 0 + 0; 0 + 0]; [0 + 0; 0 + 0; 2 + 0]] /\
+  dc_of (w_st w') (i_dc (imol_of (w_st w') (o_imol (obj_of (w_st w') O)))) = [].
+Proof. split; [vm_compute; reflexivity|]. split; [vm_compute; reflexivity|]. split; vm_compute; reflexivity. Qed.
